@@ -231,7 +231,7 @@ Definition run_prog (en : env) (p : prog) (x : xstate) : xstate :=
 (* ---------------------------------------------------------------- static analysis *)
 (* abstract state: the two global_state values are tracked as constants (path by path);
    a_s = scalar members whose value is the same in the two runs being compared;
-   a_p = pointer members assigned since the last abort of their object *)
+   a_p = pointer members that point into the current image pool of their object *)
 Record astate := mka { a_c : Z; a_d : Z; a_s : list fld; a_p : list fld }.
 
 Definition is_gs (f : fld) : bool := fld_eqb f gsc || fld_eqb f gsd.
@@ -314,11 +314,10 @@ Fixpoint ana (c : cmd) (a : astate) : option ares :=
       if is_gs f then
         match aeval a e with Some v => Some (rnext (set_gs a f v)) | None => None end
       else if alldef a (reads e) then Some (rnext (mka (a_c a) (a_d a) (addf f (a_s a)) (a_p a))) else None
-  | CAlloc p | CNull p => Some (rnext (mka (a_c a) (a_d a) (a_s a) (addf p (a_p a))))
+  | CAlloc p => Some (rnext (mka (a_c a) (a_d a) (a_s a) (addf p (a_p a))))
+  | CNull p => Some (rnext (mka (a_c a) (a_d a) (a_s a) (removef p (a_p a))))
   | CDeref p => if memf p (a_p a) then Some (rnext a) else None
-  | CIfNull p x y => if memf p (a_p a) then
-                       match ana x a, ana y a with Some r1, Some r2 => Some (runion r1 r2) | _, _ => None end
-                     else None
+  | CIfNull p x y => if memf p (a_p a) then ana y a else None      (* a_p: known to be live, hence not NULL *)
   | CIf e x y =>
       match aeval a e with
       | Some v => if Z.eqb v 0 then ana y a else ana x a
@@ -329,8 +328,8 @@ Fixpoint ana (c : cmd) (a : astate) : option ares :=
   | CAbort o =>
       match o with
       | OC => Some (rnext (mka CSTART (a_d a) (a_s a) (remove_obj OC (a_p a))))
-      | OD => Some (rnext (mka (a_c a) DSTART (a_s a) (addf (OD, "marker_list"%string) (remove_obj OD (a_p a)))))
-      | OT => Some (rnext a)
+      | OD => Some (rnext (mka (a_c a) DSTART (a_s a) (remove_obj OD (a_p a))))
+      | OT => Some (rnext (mka (a_c a) (a_d a) (a_s a) (remove_obj OT (a_p a))))
       end
   | CObs _ e => if alldef a (reads e) then Some (rnext a) else None
   | CRaise => Some (mkr [] [a] [] [])
